@@ -82,6 +82,7 @@ const (
 	OINeg
 	OILt
 	OILe
+	OIMod // mathematical integer modulo a positive constant (SMT-LIB mod: result in [0, d))
 	OBV2Int // signed interpretation of bv -> Int
 	OApp    // uninterpreted function application (Name), result sort in term
 	// IEEE binary64, round to nearest even (Go's float64 arithmetic)
@@ -107,7 +108,7 @@ var opNames = map[Op]string{
 	OBVSDiv: "bvsdiv", OBVSRem: "bvsrem", OBVAnd: "bvand", OBVOr: "bvor", OBVXor: "bvxor",
 	OBVNot: "bvnot", OBVNeg: "bvneg", OBVShl: "bvshl", OBVLShr: "bvlshr", OBVAShr: "bvashr",
 	OBVULt: "bvult", OBVULe: "bvule", OBVSLt: "bvslt", OBVSLe: "bvsle",
-	OIAdd: "+", OISub: "-", OINeg: "-", OILt: "<", OILe: "<=",
+	OIAdd: "+", OISub: "-", OINeg: "-", OILt: "<", OILe: "<=", OIMod: "mod",
 }
 
 type Term struct {
@@ -866,6 +867,17 @@ func ILe(a, b *Term) *Term {
 	return mkTerm(Term{Op: OILe, S: BoolSort, Args: []*Term{a, b}})
 }
 
+// IMod is a mod d for a positive constant d (result in [0, d), as in SMT-LIB).
+func IMod(a *Term, d int64) *Term {
+	if d <= 0 {
+		panic("IMod: divisor must be positive")
+	}
+	if a.IsConst() {
+		return IntC(((a.I % d) + d) % d)
+	}
+	return mkTerm(Term{Op: OIMod, S: IntSort, Args: []*Term{a, IntC(d)}})
+}
+
 func BV2Int(a *Term) *Term {
 	if a.IsConst() {
 		return IntC(sext(a.U, a.S.W))
@@ -1141,6 +1153,9 @@ func (c *evalCtx) eval(t *Term) uint64 {
 		if int64(a(0)) <= int64(a(1)) {
 			r = 1
 		}
+	case OIMod:
+		d := int64(a(1))
+		r = uint64(((int64(a(0)) % d) + d) % d)
 	case OBV2Int:
 		r = uint64(sext(a(0), t.Args[0].S.W))
 	case OFAdd, OFSub, OFMul, OFDiv:
